@@ -22,9 +22,9 @@ func modBal(c *Chain, ctx sdk.Context, module string) math.Int {
 // StakeSnap is the staked-token ledger next to the pools that must back it.
 type StakeSnap struct {
 	PoolBonded, PoolNotBonded   math.Int
-	LedgerBonded, LedgerNotBond math.Int // Σ validator tokens by status
-	UBD                         math.Int // Σ unbonding entry balances
-	Dispute                     math.Int // dispute module balance
+	LedgerBonded, LedgerNotBond math.Int                  // Σ validator tokens by status
+	UBD                         math.Int                  // Σ unbonding entry balances
+	Dispute                     math.Int                  // dispute module balance
 	Dels                        map[string]math.LegacyDec // delegator|validator -> shares
 }
 
@@ -66,14 +66,14 @@ type C05Monitor struct {
 	st   *Stats
 	prev StakeSnap
 	// records known before the tx, to detect newly written escrow / fee records
-	escrow map[string]bool
-	fees   map[string]math.Int
+	escrow                      map[string]bool
+	fees                        map[string]math.Int
 	bondedShort, notBondedShort bool
-	invBroken map[string]bool
+	invBroken                   map[string]bool
 }
 
 func NewC05Monitor(st *Stats) *C05Monitor { return &C05Monitor{st: st} }
-func (m *C05Monitor) Name() string         { return "c05" }
+func (m *C05Monitor) Name() string        { return "c05" }
 
 func layerMsg(tx sdk.Tx) (string, bool) {
 	if tx == nil {
